@@ -13,8 +13,8 @@ import (
 	"github.com/relex/slog-agent/transform/tblock"
 	"github.com/relex/slog-agent/transform/tdelfields"
 	"github.com/relex/slog-agent/transform/tdrop"
-	"github.com/relex/slog-agent/transform/tif"
 	"github.com/relex/slog-agent/transform/textract"
+	"github.com/relex/slog-agent/transform/tif"
 	"github.com/relex/slog-agent/transform/tmapvalue"
 	"github.com/relex/slog-agent/transform/treplace"
 	"github.com/relex/slog-agent/transform/tswitch"
